@@ -167,6 +167,19 @@ cfg_datasource! {
     pub extern crate apollo_client;
 }
 
+/// Verification hook (only with `--cfg sentinel_verif`): make the datasource rule parser
+/// reachable without enabling any concrete datasource adapter.
+#[cfg(all(
+    sentinel_verif,
+    not(any(
+        feature = "ds_etcdv3",
+        feature = "ds_consul",
+        feature = "ds_k8s",
+        feature = "ds_apollo"
+    ))
+))]
+pub mod datasource;
+
 cfg_k8s! {
     pub extern crate k8s_openapi;
     pub extern crate kube;
